@@ -176,7 +176,13 @@ def run_case(case):
                 start_time=start, progress_type="silent")
     elif entry == "tebd":
         n = int(rng.integers(2, 6 if not quick else 5))
+        # sites of different dimension, couplings A (x) B with unrelated
+        # factors, non-normal two-site jump operators (every third case keeps
+        # the homogeneous spin-1/2 chain with symmetric couplings)
+        generic = bool(i % 3)
         dims = [2] * n
+        if generic:
+            dims = [2] + [int(rng.choice([2, 3])) for _ in range(n - 1)]
         dims_sig = tuple(dims)
         nsteps = min(nsteps, 5)
         chain = oqupy.SystemChain(dims)
@@ -184,10 +190,27 @@ def run_case(case):
         sz = np.diag([1.0, -1.0]).astype(complex)
         sm = np.array([[0, 0], [1, 0]], complex)
         for s in range(n):
-            chain.add_site_hamiltonian(s, gen.rand_herm(rng, 2, 0.6))
+            chain.add_site_hamiltonian(s, gen.rand_herm(rng, dims[s], 0.6))
             if rng.random() < 0.5:
-                chain.add_site_dissipation(s, sm, float(rng.uniform(0.05, 0.3)))
+                lop = gen.cplx(rng, (dims[s], dims[s]), 0.5) if generic \
+                    else sm
+                chain.add_site_dissipation(s, lop,
+                                           float(rng.uniform(0.05, 0.3)))
         for s in range(n - 1):
+            if generic:
+                a = gen.rand_herm(rng, dims[s], 0.5)
+                b = gen.rand_herm(rng, dims[s + 1], 0.5)
+                chain.add_nn_hamiltonian(s, a, b)
+                if dims[s] == dims[s + 1]:
+                    # antisymmetric exchange  a (x) b - b (x) a
+                    chain.add_nn_hamiltonian(s, 0.5 * b, a)
+                    chain.add_nn_hamiltonian(s, -0.5 * a, b)
+                if rng.random() < 0.5:
+                    chain.add_nn_dissipation(
+                        s, gen.cplx(rng, (dims[s], dims[s]), 0.5),
+                        gen.cplx(rng, (dims[s + 1], dims[s + 1]), 0.5),
+                        float(rng.uniform(0.05, 0.2)))
+                continue
             chain.add_nn_hamiltonian(s, float(rng.normal()) * sz, sz)
             chain.add_nn_hamiltonian(s, float(rng.normal()) * 0.5 * sx, sx)
             if rng.random() < 0.3:
@@ -197,8 +220,9 @@ def run_case(case):
         end = lib.end_time(0.0, dt, nsteps)
         pt = oqupy.pt_tempo_compute(oqupy.Bath(oper, gen.make_power_law(p)),
                                     0.0, end, params, progress_type="silent")
-        pts = [pt if (s % 2 == 0) else None for s in range(n)]
-        rhos = [gen.rand_state(rng, 2, skind) for _ in range(n)]
+        pts = [pt if (s % 2 == 0 and dims[s] == 2) else None
+               for s in range(n)]
+        rhos = [gen.rand_state(rng, dims[s], skind) for s in range(n)]
         teps = float(rng.choice([1e-6, 1e-7, 1e-8]))
         phys.epsrel = max(epsrel, teps)
         # truncation of the chain MPS: errors accumulate over bonds and steps
